@@ -6,7 +6,9 @@ import (
 	"go/constant"
 	"go/token"
 	"go/types"
+	"golang.org/x/tools/go/cfg"
 	"strings"
+	"sync"
 	"unicode"
 
 	"verif/checker/core"
@@ -21,7 +23,8 @@ func init() {
 			"(cleaner-file) os.Remove of join(dir, entry.Name()) dominated by HasSuffix(entry.Name(), GeneratedFileSuffix) on the not-IsDir branch; (empty-dir) os.Remove(dir) dominated by len(ReadDir(dir)) == 0; " +
 			"(temp) os.Remove(f.Name()) of a file obtained from os.CreateTemp in the same function.  RemoveAll, Rename, Truncate, Chmod are forbidden.",
 		Props: []string{"C20"},
-		Floor: map[string]int{"v2": 8, "root": 6},
+		// 8 and 6 sites today; the floor leaves room for merging the duplicated "remove the directory if it is empty" block
+		Floor: map[string]int{"v2": 6, "root": 4},
 		Run:   runR201,
 	})
 	core.Register(&core.Rule{
@@ -73,9 +76,87 @@ type ownedCtx struct {
 	sufVal string
 }
 
+// constObj is core.ObjOf, except that a struct field which every composite literal of its type in the module sets to
+// one and the same package-level constant, and which is assigned nowhere else, stands for that constant (the cleaner's
+// configuration moved into a small struct).
+func constObj(c *core.Ctx, inf *types.Info, e ast.Expr) types.Object {
+	o := core.ObjOf(inf, e)
+	fv, ok := o.(*types.Var)
+	if !ok || !fv.IsField() {
+		return o
+	}
+	if k, ok := constFieldMemo.Load(fv); ok {
+		if k == nil {
+			return o
+		}
+		return k.(types.Object)
+	}
+	var konst types.Object
+	okAll, lits := true, 0
+	for _, p := range c.M.Roots {
+		pinf := p.TypesInfo
+		for _, file := range p.Syntax {
+			ast.Inspect(file, func(n ast.Node) bool {
+				switch x := n.(type) {
+				case *ast.CompositeLit:
+					st, isStruct := pinf.Types[x].Type.Underlying().(*types.Struct)
+					if !isStruct {
+						return true
+					}
+					idx := -1
+					for i := 0; i < st.NumFields(); i++ {
+						if st.Field(i) == fv {
+							idx = i
+						}
+					}
+					if idx < 0 {
+						return true
+					}
+					lits++
+					var val ast.Expr
+					for i, el := range x.Elts {
+						if kv, isKV := el.(*ast.KeyValueExpr); isKV {
+							if core.ObjOf(pinf, kv.Key) == fv {
+								val = kv.Value
+							}
+						} else if i == idx {
+							val = el
+						}
+					}
+					ko, _ := core.ObjOf(pinf, val).(*types.Const)
+					if val == nil || ko == nil || (konst != nil && konst != types.Object(ko)) {
+						okAll = false
+					} else {
+						konst = ko
+					}
+				case *ast.AssignStmt:
+					for _, l := range x.Lhs {
+						if core.ObjOf(pinf, l) == fv {
+							okAll = false
+						}
+					}
+				case *ast.UnaryExpr:
+					if x.Op == token.AND && core.ObjOf(pinf, x.X) == fv {
+						okAll = false
+					}
+				}
+				return true
+			})
+		}
+	}
+	if !okAll || lits == 0 || konst == nil {
+		constFieldMemo.Store(fv, nil)
+		return o
+	}
+	constFieldMemo.Store(fv, konst)
+	return konst
+}
+
+var constFieldMemo sync.Map
+
 func (o *ownedCtx) ownedLast(inf *types.Info, e ast.Expr) bool {
 	e = core.Unparen(e)
-	if obj := core.ObjOf(inf, e); obj != nil && obj == o.mani {
+	if obj := constObj(o.c, inf, e); obj != nil && obj == o.mani {
 		return true
 	}
 	if be, ok := e.(*ast.BinaryExpr); ok && be.Op == token.ADD {
@@ -89,7 +170,7 @@ func (o *ownedCtx) ownedLast(inf *types.Info, e ast.Expr) bool {
 }
 
 func (o *ownedCtx) isSuffixConst(inf *types.Info, e ast.Expr) bool {
-	return core.ObjOf(inf, e) == o.suffix
+	return constObj(o.c, inf, e) == o.suffix
 }
 
 // ownedPath decides whether path expression e (in fd) always denotes an owned name.
@@ -261,7 +342,7 @@ func runR201(c *core.Ctx) {
 									if !ok || !fa.Val || !core.IsFunc(core.Callee(inf, hc), "strings", "HasSuffix") || len(hc.Args) != 2 {
 										return false
 									}
-									return isEntryName(inf, hc.Args[0], entry) && core.ObjOf(inf, hc.Args[1]) == o.suffix
+									return isEntryName(inf, hc.Args[0], entry) && constObj(c, inf, hc.Args[1]) == o.suffix
 								}, nil)
 								notDir := core.GuardedByFact(inf, par, stmt, func(fa core.Fact) bool {
 									hc, ok := core.Unparen(fa.Expr).(*ast.CallExpr)
@@ -465,8 +546,8 @@ func runR203(c *core.Ctx) {
 	c.Check(okNil, "codegen/types", "(*Typeref).GenerateCode", "custom typerefs produce no code file", fd.Pos(), "", "GenerateCode does not return nil first for custom typerefs: a generated file would shadow the user's implementation")
 }
 
-// cleanerComponent returns CleanTargetDir and the package-level functions of its package that lie on a call cycle with
-// it (the cleaner written as several mutually recursive functions), root first.
+// cleanerComponent returns CleanTargetDir and the functions and methods of its package that it reaches through static
+// calls (the cleaner written as several, possibly mutually recursive, functions), root first.
 func cleanerComponent(c *core.Ctx, rel string, root *types.Func) []*ast.FuncDecl {
 	inf := info(c, rel)
 	declOf := map[*types.Func]*ast.FuncDecl{}
@@ -499,26 +580,9 @@ func cleanerComponent(c *core.Ctx, rel string, root *types.Func) []*ast.FuncDecl
 			}
 		}
 	}
-	// of those, the ones that reach the root again
-	back := map[*types.Func]bool{root: true}
-	for changed := true; changed; {
-		changed = false
-		for f := range fwd {
-			if back[f] {
-				continue
-			}
-			for _, g := range callees(declOf[f]) {
-				if back[g] {
-					back[f] = true
-					changed = true
-					break
-				}
-			}
-		}
-	}
 	out := []*ast.FuncDecl{declOf[root]}
 	for _, fd := range c.M.FuncDecls(rel) {
-		if f, _ := inf.Defs[fd.Name].(*types.Func); f != nil && f != root && fwd[f] && back[f] {
+		if f, _ := inf.Defs[fd.Name].(*types.Func); f != nil && f != root && fwd[f] {
 			out = append(out, fd)
 		}
 	}
@@ -630,24 +694,55 @@ func runR204(c *core.Ctx) {
 			}
 			return true
 		})
-		ast.Inspect(cfd.Body, func(n ast.Node) bool {
-			rs, ok := n.(*ast.RangeStmt)
-			if !ok || !(listings[core.ObjOf(inf, rs.X)] || isReadDir(rs.X)) {
-				return true
-			}
-			loops++
-			reads := 0
-			ast.Inspect(cfd.Body, func(m ast.Node) bool {
-				if e, ok := m.(ast.Expr); ok && isReadDir(e) && e.Pos() > rs.End() {
-					reads++
+		// every body of the function: its own and those of its function literals
+		bodies := []*ast.BlockStmt{cfd.Body}
+		for _, fl := range core.FuncLitsIn(cfd.Body) {
+			bodies = append(bodies, fl.Body)
+		}
+		for _, body := range bodies {
+			var sweeps []*ast.RangeStmt
+			core.WalkNoFuncLit(body, func(n ast.Node) bool {
+				if rs, ok := n.(*ast.RangeStmt); ok && (listings[core.ObjOf(inf, rs.X)] || isReadDir(rs.X)) {
+					sweeps = append(sweeps, rs)
 				}
 				return true
 			})
-			if reads == 0 {
+			if len(sweeps) == 0 {
+				continue
+			}
+			loops += len(sweeps)
+			isSweep := map[ast.Stmt]bool{}
+			for _, rs := range sweeps {
+				isSweep[rs] = true
+			}
+			// path property: once a sweep loop has been left, the directory itself (a path that is not a joined entry
+			// name) is removed only after os.ReadDir ran again
+			bad := false
+			core.NewFlow(c.M, inf, body).Run(&core.Automaton{
+				Block: func(st int, b *cfg.Block) int {
+					if b.Kind == cfg.KindRangeDone && isSweep[b.Stmt] {
+						return 1
+					}
+					return st
+				},
+				Node: func(st int, n ast.Node) int {
+					for _, call := range core.CallsIn(n) {
+						if isReadDir(call) {
+							st = 0
+						}
+						if core.IsFunc(core.Callee(inf, call), "os", "Remove") && len(call.Args) == 1 && st == 1 {
+							if id, ok := core.Unparen(call.Args[0]).(*ast.Ident); ok && joinOfEntryName(inf, cfd, core.ObjOf(inf, id)) == nil {
+								bad = true
+							}
+						}
+					}
+					return st
+				},
+			})
+			if bad {
 				stale++
 			}
-			return true
-		})
+		}
 	}
 	c.Check(loops > 0 && stale == 0, rel, "CleanTargetDir", "directory is re-listed after cleaning before it may be removed", fd.Pos(), "", "the emptiness test after the loop uses the stale listing")
 }
